@@ -90,6 +90,21 @@ def slots(A):
     return out
 
 
+def _lex(text):
+    """Token spellings of `text` by the real lexer (None if it reports an error)."""
+    L = core.repo_import("pycparser.c_lexer")
+    errs = []
+    lx = L.CLexer(lambda *a: errs.append(a), lambda: None, lambda: None, lambda n: False)
+    lx.input(text, "g.c")
+    out = []
+    while True:
+        t = lx.token()
+        if t is None:
+            break
+        out.append(t.value)
+    return None if errs else out
+
+
 def parenthesisation_contract() -> core.Result:
     A = core.repo_import("pycparser.c_ast")
     G = core.repo_import("pycparser.c_generator")
@@ -131,6 +146,15 @@ def parenthesisation_contract() -> core.Result:
                     pass
                 if not wrapped and level < need:
                     bad.append(f"child {cname} (level {level}) is printed without parentheses where the parser parses level >= {need}: {text!r}")
+                elif not wrapped:
+                    # token boundaries: the child's own text, put where the marker stands, must not fuse with its neighbours
+                    # under the lexer's longest match (`-` before `--a` would read `--` `-` `a`)
+                    ctext = G.CGenerator(reduce_parentheses=flag).visit(child)
+                    whole = _lex(text[:i] + ctext + text[i + len(MARK):])
+                    parts = _lex(text[:i]) + _lex(ctext) + _lex(text[i + len(MARK):])
+                    if whole is not None and None not in (whole, parts) and whole != parts:
+                        bad.append(f"child {cname} printed without parentheses fuses with a neighbouring token: "
+                                   f"{(text[:i] + ctext + text[i + len(MARK):])!r} lexes as {whole}")
         q = "CGenerator.visit_" + sname.split(".")[0].rstrip("".join(set("".join(list(BIN) + ASSIGN_OPS + PREFIX_OPS + ["p"]))))
         rep = None
         if bad:
@@ -178,6 +202,18 @@ for e in srcs:
         elif c_generator.CGenerator(reduce_parentheses=flag).visit(t2) != text: bad.append((e, flag, 'regenerated text differs'))
 for b in bad[:5]: print(b)
 print('REPRODUCED' if bad else 'NOT-REPRODUCED')
+'''
+
+
+PRAGMA_REPLAY = '''from pycparser import c_parser, c_generator
+SRC = "#pragma omp  for  \\nint x;\\nvoid f(void) {\\n#pragma  y \\n x = 1; }\\n"
+t1 = c_parser.CParser().parse(SRC)
+text = c_generator.CGenerator().visit(t1)
+t2 = c_parser.CParser().parse(text)
+p1 = [n.string for n in [t1.ext[0]] + [t1.ext[2].body.block_items[0]]]
+p2 = [n.string for n in [t2.ext[0]] + [t2.ext[2].body.block_items[0]]]
+print(p1, p2)
+print('REPRODUCED' if p1 != p2 else 'NOT-REPRODUCED')
 '''
 
 
@@ -234,6 +270,21 @@ def table_obligations() -> core.Result:
             bad.append(f"{name} as a statement gets no ';': {t!r}")
         if name not in want_semi and added:
             bad.append(f"{name} as a statement gets a spurious ';': {t!r}")
+    # text-valued attributes are emitted verbatim (the lexer keeps the whole rest of a #pragma line, blanks included)
+    vb = []
+    for node, want in ((A.Pragma("omp  for  "), "#pragma omp  for  "), (A.Pragma("x"), "#pragma x"), (A.Pragma(""), "#pragma"),
+                       (A.ID("_a$1"), "_a$1"), (A.Constant("int", "0x1FuLL"), "0x1FuLL"), (A.Constant("string", '"a  b "'), '"a  b "'),
+                       (A.Goto("L1"), "goto L1;")):
+        try:
+            got = G.CGenerator().visit(node)
+        except Exception as e:  # noqa
+            vb.append(f"{type(node).__name__}: {type(e).__name__}: {e}")
+            continue
+        if got != want:
+            vb.append(f"{type(node).__name__}: generated {got!r}, the attribute requires {want!r}")
+    res.obs.append(core.Ob("C07/tb/attributes-verbatim", core.REFUTED if vb else core.DISCHARGED, "TB", 0.0,
+                           "; ".join(vb[:4]) or "spellings held in attributes (pragma text with blanks, names, constants, labels) are emitted unchanged",
+                           replay=(PRAGMA_REPLAY if vb else None), functions=["CGenerator.visit_Pragma", "CGenerator.visit_ID", "CGenerator.visit_Constant"]))
     res.obs.append(core.Ob("C07/tb/statement-terminators", core.REFUTED if bad else core.DISCHARGED, "TB", 0.0,
                            "; ".join(bad[:4]) or f"{len(samples)} node classes in statement position: ';' exactly for expressions and declarations",
                            replay=ROUNDTRIP_REPLAY if bad else None, functions=["CGenerator._generate_stmt"]))
